@@ -327,6 +327,28 @@ def LayoutChecksOK (env : Env V) (mod : Module J V) (attr : String) (v : V) (ls 
 
 end layout
 
+/-! ## well-formedness, decided
+
+The theorems are about nodes satisfying `Node.WF` (what class creation and configuration guarantee).  `wfB` decides it, so
+that the driver can say of every node the harness builds whether the theorems speak about it
+(`Props.C04.wf_of_wfB`). -/
+
+def accKindOKB (pre : Predef) (a : Acc J V) : Bool :=
+  match predefKind pre a.attr with
+  | some k => decide (k = a.kind)
+  | none => true
+
+def accConstROB : Acc J V → Bool
+  | .param p => !p.constant.isSome || p.readonly
+  | .command _ => true
+
+def moduleWfB (pre : Predef) (m : Module J V) : Bool :=
+  decide ((m.accs.map Acc.attr).Nodup) && decide ((m.accs.filterMap (wireName pre m)).Nodup) &&
+  m.accs.all (accKindOKB pre) && m.accs.all accConstROB
+
+def wfB (pre : Predef) (n : Node J V) : Bool :=
+  decide ((n.map (·.name)).Nodup) && n.all (moduleWfB pre)
+
 /-! ## histories -/
 
 def isRead : DriverCall V → Bool
